@@ -261,8 +261,37 @@ def run_case(case):
                 if r[n_] is not None:
                     r[n_] = D(r[n_]) + D('0.5') if other == 'number' else int(r[n_])
         covc['mixed_types_across_resources'] = 1
+    rng_o = boot.rng(case['seed'], 'C15', 'order', case['idx'])
+    if len(res_names) > 1 and fam in ('delete_fields', 'select_fields', 'rename_fields') and rng_o.random() < 0.4:
+        # the resources do not have the same fields: one of them (the first or the last) has one more
+        rn2 = res_names[rng_o.choice([0, -1])]
+        per_res_fields = dict(per_res_fields)
+        per_res_fields[rn2] = list(per_res_fields[rn2]) + [{'name': 'only_here', 'type': 'string', 'format': 'default'}]
+        for i_, r_ in enumerate(tables[rn2]):
+            r_['only_here'] = 'oh%d' % i_
+        covc['resources_with_different_fields'] = 1
+    if rng_o.random() < 0.3:
+        # rows of one resource laid out differently (as behind a full-outer join or a step that re-builds rows): a row is a
+        # mapping, the order of its keys carries nothing
+        for rn in res_names:
+            for i_, r_ in enumerate(tables[rn]):
+                if i_ % 2:
+                    items_ = list(r_.items())
+                    rng_o.shuffle(items_)
+                    tables[rn][i_] = dict(items_)
+        covc['rows_with_differing_key_order'] = 1
     srcs = [lab.source(rn, per_res_fields[rn], tables[rn]) for rn in res_names]
-    got = lab.run(srcs + [step])
+    tail = []
+    if len(res_names) > 1 and rng_o.random() < 0.3:
+        # a later step that takes hold of ALL resource streams before it reads any of them (to walk them side by side)
+        def side_by_side(package):
+            yield package.pkg
+            streams = list(package)
+            for st_ in streams:
+                yield st_
+        tail = [side_by_side]
+        covc['later_step_holds_all_streams_before_reading'] = 1
+    got = lab.run(srcs + [step] + tail)
     sample = {'resources': res_names, 'fields': fields, 'selector': selector, 'config': desc_cfg,
               'rows': {rn: gen.render(tables[rn][:3], 300) for rn in res_names}}
     typs = dict(fields)
